@@ -468,9 +468,25 @@ impl<C: Suite> Model for M08<C> {
                             o.outcome(&format!("matrix:{}-{}", if i == j { "i=j" } else { "i!=j" }, if acc { "accept" } else { "reject" }));
                             o.expect(&key("partial-signature-matrix", if i == j { "own-key-share" } else { "other-key-share" }), acc == (i == j) && v.is_ok(), if i == j { "accept" } else { "reject" }, verdict(&v));
                             o.expect(&key("partial-signature-matrix-both-entry-points", "agree"), matches!(v2, Ok(Ok(()))) == acc, "same decision", verdict(&v2));
+                            // trait level partial_verify (it also compares the identifiers)
+                            let raw = *it.sigs[i].as_raw_value();
+                            let v3 = guard(|| match it.s {
+                                Scheme::Basic => <C as BlsSignatureBasic>::partial_verify(it.pks[j].0, raw, &self.msg),
+                                _ => <C as BlsSignaturePop>::partial_verify(it.pks[j].0, raw, &self.msg),
+                            });
+                            o.calls(1);
+                            o.expect(&key("trait-partial_verify", if i == j { "own-key-share" } else { "other-key-share" }), matches!(v3, Ok(Ok(()))) == (i == j) && v3.is_ok(), if i == j { "accept" } else { "reject" }, verdict(&v3));
                         }
                     }
                     // deterministic partial signing; public key share = G * share value
+                    // trait level signing / key share derivation give the same containers
+                    let tps = match it.s {
+                        Scheme::Basic => <C as BlsSignatureBasic>::partial_sign(&it.shares[0].0, &self.msg),
+                        _ => <C as BlsSignaturePop>::partial_sign(&it.shares[0].0, &self.msg),
+                    };
+                    o.expect(&key("trait-partial_sign", "agrees"), matches!(&tps, Ok(x) if x == it.sigs[0].as_raw_value()), "same share", "differs");
+                    let tpk = <C as BlsSignatureCore>::public_key_share(&it.shares[0].0);
+                    o.expect(&key("trait-public_key_share", "agrees"), matches!(&tpk, Ok(x) if *x == it.pks[0].0), "same share", "differs");
                     let again = it.shares[0].sign(lib_scheme(it.s), &self.msg).unwrap();
                     o.expect(&key("partial-sign", "deterministic"), again == it.sigs[0], "equal", "differs");
                     let augr = guard(|| it.shares[0].sign(SignatureSchemes::MessageAugmentation, &self.msg));
